@@ -1,4 +1,5 @@
 import Qx.Proofs.C07
+import Qx.Generated.PromiseSites
 /-!
 # C07 — every request completes exactly once, and only by a reply from the entity asked
 
@@ -415,5 +416,178 @@ example : ∀ op ∈ [C13.Op.copyHandle, C13.Op.destroyCtx 2], C07Chain.Quiet 1 
   rcases h with rfl | rfl
   · exact Or.inl rfl
   · exact Or.inr ⟨2, rfl, by decide⟩
+
+end Qx.C07
+
+/-! ### `fetchBlocklist` (one shared IQ, a list of waiting promises, a cache) -/
+namespace Qx.C07
+
+/-- **Every `fetchBlocklist()` call completes at most once**, for every history of calls, IQ
+completions and session starts. -/
+theorem blocklist_call_completes_at_most_once (ops : List Blocklist.Op) (n : Nat) :
+    (Blocklist.calls (Blocklist.run Blocklist.init ops).2).count n ≤ 1 := by
+  have h := Blocklist.reachable_inv ops
+  have hn := (h.nodup_iff).mpr List.nodup_range
+  exact List.nodup_iff_count.mp (List.nodup_append.mp hn).2.1 n
+
+/-- **… and exactly once or still waiting for the shared IQ**: every call made so far is either in the
+waiting list (once) or has completed (once). -/
+theorem blocklist_exactly_once_or_waiting (ops : List Blocklist.Op) (n : Nat)
+    (hn : n < (Blocklist.run Blocklist.init ops).1.ncalls) :
+    ((Blocklist.run Blocklist.init ops).1.waiting.count n = 1 ∧ (Blocklist.calls (Blocklist.run Blocklist.init ops).2).count n = 0) ∨
+    ((Blocklist.run Blocklist.init ops).1.waiting.count n = 0 ∧ (Blocklist.calls (Blocklist.run Blocklist.init ops).2).count n = 1) := by
+  have := count_of_perm_range (Blocklist.reachable_inv ops) hn
+  rw [List.count_append] at this
+  omega
+
+/-- **Nobody is left waiting once the shared IQ has completed or a new session has begun** (the
+request table guarantees one of the two happens, `iq_eventually`): every call made so far has
+completed exactly once. -/
+theorem blocklist_all_complete_after_answer (ops : List Blocklist.Op) (op : Blocklist.Op)
+    (hop : (∃ ok, op = .iqDone ok) ∨ op = .newSession) (n : Nat)
+    (hn : n < (Blocklist.run Blocklist.init (ops ++ [op])).1.ncalls) :
+    (Blocklist.calls (Blocklist.run Blocklist.init (ops ++ [op])).2).count n = 1 := by
+  have hw : (Blocklist.run Blocklist.init (ops ++ [op])).1.waiting = [] := by
+    have key : ∀ (s : Blocklist.St), (Blocklist.step s op).1.waiting = [] := by
+      intro s
+      rcases hop with ⟨ok, rfl⟩ | rfl
+      · simp only [Blocklist.step]; split <;> simp_all
+      · simp [Blocklist.step]
+    have run_snoc : ∀ (l : List Blocklist.Op) (s : Blocklist.St),
+        (Blocklist.run s (l ++ [op])).1 = (Blocklist.step (Blocklist.run s l).1 op).1 := by
+      intro l
+      induction l with
+      | nil => intro s; simp [Blocklist.run]
+      | cons x xs ih => intro s; simp [Blocklist.run, ih]
+    rw [run_snoc]; exact key _
+  rcases blocklist_exactly_once_or_waiting (ops ++ [op]) n hn with h | h
+  · rw [hw] at h; simp at h
+  · exact h.2
+
+/-! ### `sendSensitiveIq` (encrypt → request → decrypt) -/
+
+/-- **The promise of `sendSensitiveIq` is finished exactly when the pipeline has ended, and then
+exactly once**: for every history of stage reports (in any order, repeated, with the extension
+removed at any point) the number of finishes is 1 if the stage is `done` and 0 otherwise. -/
+theorem sensitive_finished_iff_done (ops : List Sensitive.Op) :
+    ((Sensitive.run Sensitive.init ops).1.stage = .done → Sensitive.finishes (Sensitive.run Sensitive.init ops).2 = 1) ∧
+    ((Sensitive.run Sensitive.init ops).1.stage ≠ .done → Sensitive.finishes (Sensitive.run Sensitive.init ops).2 = 0) := by
+  have := Sensitive.run_inv ops Sensitive.init 0 ⟨(by intro h; cases h), fun _ => rfl⟩
+  simpa [Sensitive.Inv] using this
+
+/-- **No stage can stall the pipeline**: in each waiting stage the report of that stage moves on
+(to the next stage or to `done`), whatever it says. -/
+theorem sensitive_stage_reports_advance (s : Sensitive.St) :
+    (s.stage = .encrypting → ∀ ok, (Sensitive.step s (.encDone ok)).1.stage = (if ok then .sent else .done)) ∧
+    (s.stage = .sent → ∀ r, (Sensitive.step s (.iqDone r)).1.stage = (if r ∧ s.ext then .decrypting else .done)) ∧
+    (s.stage = .decrypting → ∀ r, (Sensitive.step s (.decDone r)).1.stage = .done) := by
+  refine ⟨?_, ?_, ?_⟩
+  · intro h ok; cases ok <;> simp [Sensitive.step, h]
+  · intro h r; by_cases hc : r = true ∧ s.ext = true <;> simp [Sensitive.step, h, hc]
+  · intro h r; simp [Sensitive.step, h]
+
+-- non-vacuity
+example : (Blocklist.run Blocklist.init [.fetch, .fetch, .iqDone true, .fetch, .newSession, .fetch, .iqDone false]).2
+    = [⟨0, true⟩, ⟨1, true⟩, ⟨2, true⟩, ⟨3, false⟩] := by decide
+example : (Sensitive.run Sensitive.init [.start, .encDone true, .iqDone true, .decDone .notEncrypted, .decDone .error]).2
+    = [.finishedOk false] := by decide
+example : (Sensitive.run Sensitive.init [.start, .dropExtension, .encDone true, .iqDone true]).2 = [.finishedErr] := by decide
+
+end Qx.C07
+
+/-! ### Promise and chaining sites of the managers (table regenerated from src/client on every run)
+
+`Generated.sites` lists every `QXmppPromise<` construction and every chain / chainIq / chainSuccess /
+chainMapSuccess / parseIq use in src/client.  The translator also checks that `chainIq`, `chainSuccess`
+and `chainMapSuccess` are `return chain<…>(…)` and that `chain` is "one promise, one continuation on
+the source, finish inside it" — the pattern `chain_once` is about. -/
+namespace Qx.C07
+open Generated
+
+def Generated.Site.isChainLike (s : Site) : Bool :=
+  s.kind = .chain || s.kind = .chainIq || s.kind = .chainSuccess || s.kind = .chainMapSuccess
+
+/-- task-returning callees accepted as the source of a chain although they hold no chain site
+themselves: `publishOwnPepItem` is `return publishItem(…)` (plain forwarding, header template);
+`exportFunc` is the export callback handed to `registerExportData` by another manager (its
+exactly-once completion is that manager's own site in this table). -/
+def forwardingSources : List String := ["publishOwnPepItem", "exportFunc"]
+
+/-- unqualified names of the functions whose returned task is built by a chain-like call -/
+def chainBuiltNames : List String :=
+  (sites.filter fun s => s.isChainLike && s.returned).map (·.name)
+
+/-- a *pure-chain* site: the function returns the combinator applied directly to a task of the request
+table (`send(Iq|GenericIq|SensitiveIq)`), to the result of another pure-chain function, or to a
+forwarding source — nothing else happens to the promise, so `chain_once` / `chain_once_ready` apply
+with the request task (`iq_eventually_exactly_once`) as the source, inductively along the calls. -/
+def Generated.Site.pureChain (s : Site) : Bool :=
+  s.returned && (s.source = "requestTable" || chainBuiltNames.contains s.source || forwardingSources.contains s.source)
+
+/-- **Every chain-like site in the managers is a pure-chain site** — so each of them is covered by
+`chain_at_most_once` / `chain_once` / `chain_once_ready`.  Fails after regeneration when a manager
+chains over something else or does more than return the chained task. -/
+theorem all_chain_sites_pure : ∀ s ∈ sites, s.isChainLike = true → s.pureChain = true := by decide
+
+/-- what ties a hand-rolled promise to this property -/
+inductive Coverage
+  | modelled (machine : String)     -- own Lean machine + exactly-once theorem + correspondence through the real manager
+  | partC                           -- only counted on the implementation (harness part C), no model
+  | notExercised                    -- neither: reported in the evidence
+  | streamInternal                  -- negotiation / connection set-up promises of the stream (properties C04, C06, C10)
+  | otherProperty (id : String)     -- belongs to another property's model
+  deriving DecidableEq, Repr
+
+/-- the hand-rolled promises (a `QXmppPromise` finished by the manager's own code), by file and
+enclosing function/struct.  A new one must be added here — with an honest coverage — or
+`all_promise_sites_classified` fails. -/
+def ownPromiseSites : List (String × String × Coverage) := [
+  ("QXmppOutgoingClient_p.h", "IqState", .modelled "request table (Qx.C07.step)"),
+  ("QXmppMamManager.cpp", "RetrieveRequestState", .modelled "Qx.C07.Mam"),
+  ("QXmppBlockingManager.cpp", "QXmppBlockingManagerPrivate", .modelled "Qx.C07.Blocklist"),
+  ("QXmppBlockingManager.cpp", "QXmppBlockingManager::fetchBlocklist", .modelled "Qx.C07.Blocklist"),
+  ("QXmppClient.cpp", "QXmppClient::sendSensitiveIq", .modelled "Qx.C07.Sensitive"),
+  ("QXmppClient.cpp", "QXmppClient::sendSensitive", .partC),
+  ("QXmppAccountMigrationManager.cpp", "QXmppAccountMigrationManager::importData", .partC),
+  ("QXmppAccountMigrationManager.cpp", "QXmppAccountMigrationManager::exportData", .partC),
+  ("QXmppMixManager.cpp", "QXmppMixManager::onRegistered", .partC),
+  ("QXmppRosterManager.cpp", "QXmppRosterManager::onRegistered", .partC),
+  ("QXmppCallInviteManager.cpp", "QXmppCallInviteManager::invite", .notExercised),
+  ("QXmppJingleMessageInitiationManager.cpp", "QXmppJingleMessageInitiationManager::propose", .notExercised),
+  ("QXmppAtmManager.cpp", "QXmppAtmManager::makeTrustDecisions", .otherProperty "C18"),
+  ("QXmppAtmManager.cpp", "QXmppAtmManager::handleMessage", .otherProperty "C18"),
+  ("QXmppAtmManager.cpp", "QXmppAtmManager::authenticate", .otherProperty "C18"),
+  ("QXmppAtmManager.cpp", "QXmppAtmManager::distrust", .otherProperty "C18"),
+  ("QXmppAtmManager.cpp", "QXmppAtmManager::makePostponedTrustDecisions", .otherProperty "C18"),
+  ("QXmppTrustManager.cpp", "QXmppTrustManager::setTrustLevel", .otherProperty "C18"),
+  ("QXmppOutgoingClient.cpp", "join", .streamInternal),
+  ("QXmppOutgoingClient.cpp", "lookupXmppSrvRecords", .streamInternal),
+  ("QXmppOutgoingClient.cpp", "BindManager::bindAddress", .streamInternal),
+  ("QXmppOutgoingClient.h", "C2sStreamManager", .streamInternal),
+  ("QXmppOutgoingClient_p.h", "StarttlsManager", .streamInternal),
+  ("QXmppOutgoingClient_p.h", "BindManager", .streamInternal),
+  ("QXmppOutgoingClient_p.h", "NonSaslAuthManager", .streamInternal),
+  ("QXmppSaslManager.cpp", "SaslManager::authenticate", .streamInternal),
+  ("QXmppSaslManager_p.h", "SaslManager", .streamInternal),
+  ("QXmppSaslManager_p.h", "Sasl2Manager", .streamInternal)
+]
+
+/-- **Every promise construction in src/client is one of the classified hand-rolled sites.** A new
+`QXmppPromise` in a manager breaks this obligation after regeneration. -/
+theorem all_promise_sites_classified :
+    ∀ s ∈ sites, s.kind = .promise →
+      (ownPromiseSites.any fun e => e.1 = s.file && e.2.1 = s.func) = true := by decide
+
+/-- … and no classification entry is stale (each still names a promise construction in the tree). -/
+theorem classified_sites_exist :
+    ∀ e ∈ ownPromiseSites, (sites.any fun s => s.kind = .promise && s.file = e.1 && s.func = e.2.1) = true := by
+  decide
+
+/-- `parseIq` outside the combinators appears only inside the continuation of a classified
+hand-rolled site (or of a fire-and-forget request that returns no task: carbons). -/
+theorem parseIq_uses_classified :
+    ∀ s ∈ sites, s.kind = .parseIq →
+      ((ownPromiseSites.any fun e => e.1 = s.file && e.2.1 = s.func) || s.func = "QXmppCarbonManagerV2::enableCarbons") = true := by
+  decide
 
 end Qx.C07
